@@ -1,5 +1,8 @@
 (* extraction of the C12 model (see ExtractC14.v for the conventions) *)
 From AV Require Import Base.Prelude Gen.VariationConsts Model.Variation.
+(* the CFF2 part (Model/Cff2Instance.v on top of the charstring interpreter of Model/Type2.v) is
+   referred to by qualified names: both models have a `region_scalar` *)
+From AV Require Model.Type2 Model.Cff2Instance.
 From Coq Require Import QArith.
 Require Import ExtrOcamlBasic.
 Extraction Language OCaml.
@@ -15,4 +18,6 @@ Extraction "../ocaml/c12/model.ml" z_add z_mul z_opp z_div_eucl z_ltb z_eqb q_re
   do_infer region_deltas_simple delta_set read_dsim dsim_entry adjustment is_var_table
   add_round_i16 add_round_u16 glyph_deltas phantom_x apply_variations instance_glyphs
   advance_delta lsb_delta mvar_target mvar_apply process_mvar output_tags round_half_away
-  BUILT_TAGS MVAR_TABLE.
+  BUILT_TAGS MVAR_TABLE
+  Cff2Instance.cff2_scalars Cff2Instance.cff2_env Cff2Instance.glyph_cmds
+  Cff2Instance.sv_from Cff2Instance.sv_value Cff2Instance.enc_sv Type2.UNIT.
